@@ -33,6 +33,13 @@ def family(rng, name, n, amb=12):
         M[M < 0.03] = 0.0
         M[M.sum(axis=1) == 0, 0] = 1.0
         return sp.csr_matrix(M.astype(np.float32))
+    if name == "sparse_clustered":   # well-separated clusters on disjoint feature blocks: the k-NN graph is not one connected blob,
+        nc, width = 8, 6                # so query() depends on the search tree seeding it in the right cluster
+        lab = rng.integers(0, nc, n)
+        M = np.zeros((n, nc * width))
+        for i in range(n):
+            M[i, lab[i] * width:(lab[i] + 1) * width] = rng.random(width) + 0.2
+        return sp.csr_matrix(M.astype(np.float32))
     if name == "binary":          # prototypes with a few flipped bits (low intrinsic dimension)
         protos = rng.random((12, 32)) < 0.4
         B = protos[rng.integers(0, 12, n)] ^ (rng.random((n, 32)) < 0.06)
@@ -144,8 +151,9 @@ def run(res, tier, seed, search):
             ("sparse", "cosine"), ("binary", "jaccard"), ("gaussian", "manhattan"), ("sparse", "euclidean")]
     modes = [{"low_memory": True, "tree_init": True, "n_jobs": None}, {"low_memory": False, "tree_init": True, "n_jobs": 4},
              {"low_memory": True, "tree_init": False, "n_jobs": 1}, {"low_memory": False, "tree_init": False, "n_jobs": -1}]
+    fams.append(("sparse_clustered", "euclidean"))
     if tier == "quick" and not search:
-        plan = [(fams[(seed + i) % len(fams)], modes[(seed + i) % len(modes)]) for i in range(3)]
+        plan = [(fams[(seed + i) % (len(fams) - 1)], modes[(seed + i) % len(modes)]) for i in range(3)] + [(("sparse_clustered", "euclidean"), modes[0])]
         n = 1200
     else:
         plan = [(f, m) for f in fams for m in modes]
